@@ -27,6 +27,7 @@ type Program struct {
 	icache         sync.Map // *ssa.Function -> interceptFn or nil marker
 	runtimeErrType types.Type
 	countFns       bool
+	branchProfile  bool
 	debugAbort     bool
 	permuteMaps    bool
 	sizes          types.Sizes
